@@ -10,7 +10,7 @@ CLAIMS = {
    technique="TLA+ reference codec model-checked with TLC; TLC-enumerated + generated values replayed into real code; recorded results validated by TLC",
    ref="5/C01"),
  "C12": dict(
-   text="The byte format is pinned by an independent TLA+ reference encoder/decoder (opcode letters, INT/LONGINT cut-over, post-order containers, STOP, legacy opcodes x coercion switches, version byte); real dumps() output is compared byte-for-byte with Dumps(v) evaluated by TLC and real loads() of reference-built legacy streams with the reference decoder, under interpreters 3.10-3.13.",
+   text="The byte format is pinned by an independent TLA+ reference encoder/decoder (opcode letters, INT/LONGINT cut-over, post-order containers, STOP, legacy opcodes x coercion switches, version byte); real dumps() output is compared byte-for-byte with Dumps(v) evaluated by TLC and real loads() of reference-built legacy streams with the reference decoder, under interpreters 3.10-3.13. The execnet release installed in the venv serves as a second binary of the format (its output and its loads judged against the same reference; each side loads what the other wrote). The plumbing of the coercion switches (Gateway.reconfigure, Channel.reconfigure, inheritance at channel creation, decode at dispatch) is modelled in spec/StrConfig.tla; every operation sequence of the model (TLC-enumerated) is replayed on the real gateway pair with legacy-opcode frames injected and TLC judges what receive() returned.",
    note="No historical execnet release or Python 2 is available offline; compatibility is established against the specification of format v2, not against old binaries.",
    technique="TLA+ reference codec; byte-for-byte conformance of recorded dumps()/loads() results evaluated by TLC; multi-interpreter replay",
    ref="5/C12"),
@@ -40,12 +40,12 @@ CLAIMS = {
    technique='TLA+ model of channel send/dispatch/receive/close/setcallback model-checked with TLC; real Gateway+WorkerGateway pair under deterministic schedule exploration (sync-point and line-level preemption); every trace validated by TLC against the TLA+ property automaton',
    ref="5/C07"),
  "C10": dict(
-   text='spec/Gateway.tla models setcallback under _receivelock against dispatch and concurrent receive(); TLC checks callback order, at most one endmarker, and that a lone callback gets all K items and exactly one endmarker. Programs placing setcallback before/between/after in-flight items and closes (incl. dropped channel objects, gateway exit) run on the real gateway pair; GatewayAbs.tla (TLC) checks every item once in order, nothing after the endmarker, exactly one requested endmarker, receive() refused; callbacks that raise or close their own channel, MultiChannel queues and dropped callback channels are among the programs (known finding: a dropped callback channel whose peer ends afterwards never gets CHANNEL_CLOSE).',
+   text='spec/Gateway.tla models setcallback under _receivelock against dispatch and concurrent receive(); TLC checks callback order, at most one endmarker, and that a lone callback gets all K items and exactly one endmarker. Programs placing setcallback before/between/after in-flight items and closes (incl. dropped channel objects, gateway exit) run on the real gateway pair; GatewayAbs.tla (TLC) checks every item once in order, nothing after the endmarker, exactly one requested endmarker, receive() refused; callbacks that raise or close their own channel, MultiChannel queues and dropped callback channels are among the programs; spec/ChanLife.tla (channel life cycle of both ends) is replayed operation by operation on the real pair with the abstract state compared after every step.',
    note='Trusted: simulated Lock/Event/Queue/pipe semantics; preemption at synchronisation/IO operations and at source lines of listed functions; virtual time. TLC instance: one channel, K<=3 items, <=3 receivers. Oracle = property automaton spec/GatewayAbs.tla evaluated by TLC on every distinct trace.',
    technique='TLA+ model of channel send/dispatch/receive/close/setcallback model-checked with TLC; real Gateway+WorkerGateway pair under deterministic schedule exploration (sync-point and line-level preemption); every trace validated by TLC against the TLA+ property automaton',
    ref="5/C10"),
  "C18": dict(
-   text='spec/ChanIds.tla (TLC) models id allocation of both sides (odd/even counters under the factory lock, explicit ids from the peer) and kills the unlocked design. Concurrent newchannel/remote_exec on both sides and channels passed over channels (also nested) run on the real gateway pair with line-level preemption inside ChannelFactory.new; GatewayAbs.tla (TLC) checks ids pairwise distinct with the right parity, traffic on transferred channels reaching the original conversation (per-endpoint order), and channel/callback tables not larger after open/transfer/close/drop cycles than before (once the conversation has settled). Known finding: the _callbacks entry of a dropped callback channel whose peer ends afterwards.',
+   text='spec/ChanIds.tla (TLC) models id allocation of both sides (odd/even counters under the factory lock, explicit ids from the peer) and kills the unlocked design. Concurrent newchannel/remote_exec on both sides and channels passed over channels (also nested) run on the real gateway pair with line-level preemption inside ChannelFactory.new; GatewayAbs.tla (TLC) checks ids pairwise distinct with the right parity, traffic on transferred channels reaching the original conversation (per-endpoint order), and channel/callback tables not larger after open/transfer/close/drop cycles than before (once the conversation has settled). spec/ChanLife.tla models the channel life cycle of both ends (opened/sendonly/closed/deleted, weak _channels, strong _callbacks, the four channel frames); TLC checks no table entry is left, the endmarker exactly once, nothing after it; every maximal sequential behaviour of the model (TLC-enumerated) is replayed on the real pair and the abstract state of both ends compared after every operation.',
    note='Trusted: simulated Lock/Event/Queue/pipe semantics; preemption at synchronisation/IO operations and at source lines of listed functions; virtual time. TLC instance: one channel, K<=3 items, <=3 receivers. Oracle = property automaton spec/GatewayAbs.tla evaluated by TLC on every distinct trace.',
    technique='TLA+ models of channel-id allocation and of channel send/dispatch/receive/close/setcallback model-checked with TLC; real Gateway+WorkerGateway pair under deterministic schedule exploration (sync-point and line-level preemption); every trace validated by TLC against the TLA+ property automaton',
    ref="5/C18"),
@@ -75,7 +75,7 @@ CLAIMS = {
    technique="TLA+ parser spec model-checked with TLC over bounded key/value lists; recorded XSpec results and Group event traces (deterministic simulator with line-level preemption + real gateways) validated by TLC",
    ref="5/C20"),
  "C17": dict(
-   text="spec/RSync.tla transcribes the receiver's decision at a path as a function of (source entry, prior target entry, delete, cwd) and states Want (what the statement demands) next to it; TLC checks target = source, that the two accepted limitations are exactly characterised, and minimality (a second sync transfers nothing and changes nothing) for all 86400 cases of the pair-complete instance (24 files x modes x mtimes, 5 link kinds, absent, directories), and kills the two pre-fix designs (mode | 0o700 on files, cwd-relative link classification). The case space is materialised on disk and synced by the real RSync through a real popen gateway (kind-changing pairs + sample in quick, all 14400 pairs in thorough), each with a re-sync, plus generated trees with several targets and modify-then-resync; TLC judges every recorded outcome (spec/RSyncCases.tla).",
+   text="spec/RSync.tla transcribes the receiver's decision at a path as a function of (source entry, prior target entry, delete, cwd) and states Want (what the statement demands) next to it; TLC checks target = source, that the two accepted limitations are exactly characterised, and minimality (a second sync transfers nothing and changes nothing) for all 86400 cases of the pair-complete instance (24 files x modes x mtimes, 5 link kinds, absent, directories), and kills the two pre-fix designs (mode | 0o700 on files, cwd-relative link classification). The case space is materialised on disk and synced by the real RSync through a real popen gateway (kind-changing pairs + sample in quick, all 14400 pairs in thorough), each with a re-sync, plus generated trees with several targets and modify-then-resync; TLC judges every recorded outcome (spec/RSyncCases.tla). spec/RSyncProto.tla models the 1:N protocol message by message (structure broadcast, serve loop, per-target request/data/ack/links/done, failing targets); TLC checks pairing, completeness of every target at return, callbacks once, send() ends, kills 3 mutants, and that the model stays inside the sender-observable language spec/RSyncProtoAbs.tla, against which sender-side event traces of real 1-3 target syncs are validated.",
    note="Run as root (no permission-denied paths); timestamps of directories and of symlinks themselves not compared; known findings: directory mode | 0o700, same-size-same-mtime quick check.",
    technique="TLA+ decision-table model of the rsync receiver model-checked with TLC over the full pair-complete case space (incl. 2 mutants); cases replayed on the real RSync over a real gateway; outcomes validated by TLC",
    ref="5/C17"),
